@@ -21,6 +21,9 @@ func checkC12(c *Ctx) {
 	c.rule("C12.c", "response → command-type routing table", 18)
 	c.rule("C12.d", "removal from the pending list paired with exactly one completion; unique tags", 8)
 	c.rule("C12.e", "a refused command changes no other state", 2)
+	c.rule("C12.f", "keyed response matchers accept a command only on a positive relation to the response", 4)
+	c.rule("C12.g", "guards of the mailbox-summary mirror hold for every conformant response", 4)
+	c.rule("C12.h", "command identity is tested on one representation per command", 1)
 	c.rule("C12.L", "layering lemma", 1)
 	ruleMirrorAgreement(c, "C12.a")
 	ruleClientStateWrites(c, "C12.b")
@@ -42,6 +45,9 @@ func checkC12(c *Ctx) {
 		c.unresolvedRoot("Client guard")
 	}
 	ruleRefusalIsolation(c, "C12.e")
+	ruleMatcherKeys(c, "C12.f")
+	ruleMirrorGuards(c, "C12.g")
+	ruleCommandIdentity(c, "C12.h")
 }
 
 var mirrorTypes = map[string]bool{"SelectedMailbox": true, "SelectData": true, "UnilateralDataMailbox": true}
